@@ -33,6 +33,14 @@ CLAIMS = {
         "text": "Gateway.reset, wait_for_startup_reset, reset_received (all 256 codes), connection_lost, AshProtocol.send_reset and rstack_frame_received proved with interference at every await: one CANCEL-prefixed RST unless a reset is in progress, completion only through the waiter future (completed only by a software-reset RSTACK), TimeoutError after RESET_TIMEOUT, no pending or registered waiter left behind on any exit, counters zero after RSTACK, waiters released on connection loss from every future state.",
         "note": "Assumed: asyncio.timeout cancels the awaited future, done-callbacks run on the next loop iteration. F4 (InvalidStateError in connection_lost) was found here and fixed in /repo.",
     },
+    "C09": {
+        "text": "EZSP.reset, version, _switch_protocol_version, startup_reset and write_config (every version 4..14 and a newer one) proved with interference at awaits: after any reset the handler is the legacy (v4) one with version 4 and the layer running; the first version query asks for the currently assumed version, the handler for the reported version (own tables, newest for unknown newer) is installed between the two queries and the second query asks for exactly the reported version; every normal bring-up went through reset-or-spontaneous-reset then version, with the start-up wait bounded; the default configuration write raises no KeyError for any version.",
+        "note": "Assumed: the NCP honours the version handshake; ASH-level faults are C01/C05; is_tcp_serial_port (urllib parsing) trusted; startup_reset is verified under the precondition of its call sites (freshly connected object), see DESIGN 5 (F3 is not reachable from the call sites).",
+    },
+    "C16": {
+        "text": "EZSP.write_config proved for every protocol version 4..14 and a newer one: the table of settings about to be written (user values exactly, disabled settings absent, untouched defaults with their grow-only marker, capacity settings not supplied by the user grow-only, one entry per setting, packet-buffer count last) is asserted when the write loop is reached; the loop body is proved for an arbitrary table entry and arbitrary NCP answers (read then at most one exact set; a grow-only entry is never written when the NCP's readable value is not smaller; a rejected set is not an exception). Table obligation: every capacity default is grow-only in every version.",
+        "note": "BOUNDED DIMENSION (stated, not hidden): user override sets of size <= 2 over the four key categories the code distinguishes (grow-only default, plain default, no default, buffer count), both insertion orders, each value symbolic or None; larger override sets follow from the per-key independence of the merge loop (argued). voluptuous validation assumed to return user entries plus schema defaults. Known finding F8 (v7 schema default for the key table) is listed in known_findings.json.",
+    },
     "C18": {
         "text": "Every obligation generated from the current source of sl_Status.from_ember_status (with the live SL_STATUS_MAP as data) is discharged by z3 for all values of each status family, no bound.",
         "note": "Trusts the PyVC value model (enum identity/equality, dict lookup by (type, value) key) and z3; logging calls are dropped; decorators other than classmethod make the function outside reach.",
